@@ -121,7 +121,33 @@ fn eval(spec: &'static Spec, syms: &[Sym], p: &[usize], s: &[usize], cycles: u32
     // reference: fresh driver + the settings ops of P (+ a bare wake_up when P changes settings)
     let settings: Vec<Op> = pre.iter().filter(|o| is_setting(o)).cloned().collect();
     let mut refrig = Rig::simple(spec);
-    apply_all_ok(&mut refrig, &settings)?;
+    // registers a settings call programs *immediately* (it establishes them for the setting it
+    // stores): wake_up must establish them again for that setting, not leave the reset default.
+    // Only the last call of each kind is in force; parameter-less trigger commands are not registers.
+    let mut established: Vec<(u8, Vec<u8>)> = Vec::new();
+    for (i, o) in settings.iter().enumerate() {
+        let before = refrig.board.borrow().chip().reg_snapshot();
+        apply_all_ok(&mut refrig, std::slice::from_ref(o))?;
+        let last_of_kind = !settings[i + 1..].iter().any(|p| p.k == o.k);
+        if last_of_kind {
+            let after = refrig.board.borrow().chip().reg_snapshot();
+            for (k, v) in after.iter() {
+                if !v.is_empty() && before.get(k) != Some(v) {
+                    established.retain(|e| e.0 != *k);
+                    established.push((*k, v.clone()));
+                }
+            }
+        } else {
+            // a later call of the same kind overrides whatever this one established
+            let after = refrig.board.borrow().chip().reg_snapshot();
+            established.retain(|e| after.get(&e.0) == Some(&e.1));
+        }
+    }
+    // registers overwritten by a later settings call of another kind are no longer established
+    {
+        let fin = refrig.board.borrow().chip().reg_snapshot();
+        established.retain(|e| fin.get(&e.0) == Some(&e.1));
+    }
     let snap_ref = if settings.is_empty() {
         refrig.board.borrow().chip().reg_snapshot()
     } else {
@@ -135,6 +161,18 @@ fn eval(spec: &'static Spec, syms: &[Sym], p: &[usize], s: &[usize], cycles: u32
     let snap = rig.board.borrow().chip().reg_snapshot();
     if let Some((op, d)) = diff_snapshots(&snap, &snap_ref) {
         out.push(("wake_up".into(), "register-snapshot-differs".into(), vec![format!("reg={:02X}", op)], d));
+    } else {
+        for (k, v) in &established {
+            if snap.get(k) != Some(v) {
+                out.push((
+                    "wake_up".into(),
+                    "register-snapshot-differs".into(),
+                    vec![format!("reg={:02X}", k), "established-by-setting".into()],
+                    format!("register {:02X} = [{}] was established by the settings call(s) [{}] and is {} after wake_up", k, hex(v), ops_short(&settings), snap.get(k).map(|x| format!("[{}]", hex(x))).unwrap_or("not written".into())),
+                ));
+                break;
+            }
+        }
     }
     // clause 3: the suffix has the same effect on memory
     if !suf.is_empty() {
